@@ -11,7 +11,7 @@ os.makedirs('/verif/.build/mutest', exist_ok=True)
 while jobs or running:
     while jobs and len(running) < N:
         j = jobs.pop(0)
-        env = dict(os.environ, VERIF_MEM_GB=mem, VERIF_JOBS='2')
+        env = dict(os.environ, VERIF_MEM_GB=mem, VERIF_JOBS=os.environ.get('MT_JOBS', '14'))
         p = subprocess.Popen(['/verif/tools/mutest.sh'] + j, stdout=subprocess.PIPE, stderr=subprocess.STDOUT, text=True, env=env)
         running.append((j, p, time.time()))
     time.sleep(2)
